@@ -161,8 +161,17 @@ func (s *state) run(c cmd) error {
 			opt.Follow = true
 			opt.FollowInterval = time.Duration(c.FollowMS) * time.Millisecond
 			// follow mode runs until the context is cancelled: SIGTERM cancels it
+			// (the handler is installed at process start: a SIGTERM that arrives before this command has been read must
+			// not kill the process with the default action)
 			fctx, cancel := context.WithCancel(ctx)
-			installTerm(cancel)
+			defer cancel()
+			go func() {
+				select {
+				case <-termCtx.Done():
+					cancel()
+				case <-fctx.Done():
+				}
+			}()
 			return r.Restore(fctx, opt)
 		}
 		return r.Restore(ctx, opt)
@@ -170,7 +179,12 @@ func (s *state) run(c cmd) error {
 	return fmt.Errorf("unknown op %q", c.Op)
 }
 
+var termCtx context.Context
+
 func main() {
+	var termCancel context.CancelFunc
+	termCtx, termCancel = context.WithCancel(context.Background())
+	installTerm(termCancel)
 	slog.SetDefault(slog.New(slog.NewTextHandler(io.Discard, &slog.HandlerOptions{Level: slog.LevelError + 8})))
 	s := &state{}
 	in := bufio.NewReaderSize(os.Stdin, 1<<20)
